@@ -295,6 +295,11 @@ pub use std::sync::Once;
 // Required for `Once` in `no_std` builds.
 pub(crate) mod spin;
 
+#[cfg(tracing_verif)]
+#[macro_use]
+#[doc(hidden)]
+pub mod __verif;
+
 pub mod callsite;
 pub mod collect;
 pub mod dispatch;
